@@ -1,7 +1,7 @@
 (** applyTextFilter / filter.go: what passing the text filter means, and the default tokeniser on the
     documented sub-language (blank-separated words and quoted phrases). *)
 From Coq Require Import List ZArith String Ascii Bool Lia Arith.
-From Thunder Require Import Lib.Json Pagination.Model.
+From Thunder Require Import Lib.Json Pagination.Model Pagination.ProofsFilterImpl.
 Import ListNotations.
 Open Scope list_scope.
 
@@ -65,7 +65,7 @@ Qed.
 
 Lemma selected_fields_spec cfg a f :
   In f (selected_fields cfg a) <->
-  In f (cfg_ff cfg) /\ (forall fs, a_ffields a = Some fs -> In f fs).
+  In f (cfg_ff cfg) /\ (forall fs, a_ffields a = Some fs -> In (ff_name f) fs).
 Proof.
   unfold selected_fields. destruct (a_ffields a) as [fs|].
   - rewrite filter_In, mem_str_spec. split.
@@ -79,8 +79,8 @@ Lemma node_filter_spec cfg a n :
   node_filter cfg a n = true <->
   a_ftext a = None \/ a_ftext a = Some EmptyString \/
   exists t f, a_ftext a = Some t /\
-    In f (cfg_ff cfg) /\ (forall fs, a_ffields a = Some fs -> In f fs) /\
-    default_match (lookup_def EmptyString f (n_texts n)) (tokens t) = true.
+    In f (cfg_ff cfg) /\ (forall fs, a_ffields a = Some fs -> In (ff_name f) fs) /\
+    default_match (lookup_def EmptyString (ff_attr f) (n_texts n)) (tokens t) = true.
 Proof.
   unfold node_filter. destruct (a_ftext a) as [[|c t]|].
   - split; auto.
@@ -94,7 +94,7 @@ Qed.
 
 Lemma apply_text_filter_spec cfg l a n :
   In n (apply_text_filter cfg l a) <-> In n l /\ node_filter cfg a n = true.
-Proof. unfold apply_text_filter. apply filter_In. Qed.
+Proof. rewrite apply_text_filter_eq. apply filter_In. Qed.
 
 (** * The tokeniser on the documented sub-language *)
 
